@@ -158,3 +158,87 @@ func H_C09_blocks_conserve() {
 	}
 	vReach("end")
 }
+
+// vCountByte counts a label byte in a text.
+func vCountByte(s string, c byte) int {
+	n := 0
+	for i := 0; i < len(s); i++ {
+		if s[i] == c {
+			n++
+		}
+	}
+	return n
+}
+
+// H_C09_paragraphs_conserve: paragraph detection (lines, then paragraphs) keeps every fragment's text exactly once.
+//
+//symgo:harness prop=C09 kernel=K4-paragraphs real=1
+//symgo:desc 1 quick / 1..3 thorough fragments with symbolic real X, Y, Width (Height 10 quick / symbolic thorough) and distinct one-letter texts: over all detected paragraphs each letter occurs exactly once in the paragraphs' lines' fragments, exactly once in the paragraphs' Text and exactly once in ParagraphLayout.GetText()
+func H_C09_paragraphs_conserve() {
+	n := vAnyIntIn(1, 1+2*vTier())
+	frags := vFrags(n, vTier() > 0)
+	pl := NewParagraphDetector().DetectFromFragments(frags, 612, 792)
+	vAssert("layout", pl != nil)
+	var inLines []text.TextFragment
+	all := ""
+	for _, p := range pl.Paragraphs {
+		all += p.Text + "\n"
+		for _, ln := range p.Lines {
+			inLines = append(inLines, ln.Fragments...)
+		}
+	}
+	whole := pl.GetText()
+	for i := 0; i < n; i++ {
+		lb := string(rune('A' + i))
+		vAssert("each-fragment-in-exactly-one-paragraph-line", vCountLabel(inLines, lb) == 1)
+		vAssert("each-text-once-in-paragraph-texts", vCountByte(all, byte('A'+i)) == 1)
+		vAssert("each-text-once-in-layout-text", vCountByte(whole, byte('A'+i)) == 1)
+	}
+	vReach("end")
+}
+
+// H_C09_reading_order_conserve: reading-order detection (columns, spanning content, lines) returns every fragment once.
+//
+//symgo:harness prop=C09 kernel=K5-reading-order real=1 noreplay=1
+//symgo:redirect (*github.com/tsawler/tabula/layout.ColumnDetector).findVerticalGaps vHavocGaps
+//symgo:desc 1 quick / 1..2 thorough fragments with symbolic real X, Y, Width, Height and distinct one-letter texts; findVerticalGaps havoc'd (0..2 arbitrary ordered gaps): each letter occurs exactly once in ReadingOrderResult.Fragments, exactly once in its Lines' fragments and exactly once in GetText()
+func H_C09_reading_order_conserve() {
+	n := vAnyIntIn(1, 1+vTier())
+	frags := vFrags(n, vTier() > 0)
+	ro := NewReadingOrderDetector().Detect(frags, 612, 792)
+	vAssert("result", ro != nil)
+	var inLines []text.TextFragment
+	for _, ln := range ro.Lines {
+		inLines = append(inLines, ln.Fragments...)
+	}
+	whole := ro.GetText()
+	for i := 0; i < n; i++ {
+		lb := string(rune('A' + i))
+		vAssert("each-fragment-once-in-reading-order", vCountLabel(ro.Fragments, lb) == 1)
+		vAssert("each-fragment-once-in-reading-order-lines", vCountLabel(inLines, lb) == 1)
+		vAssert("each-text-once-in-reading-order-text", vCountByte(whole, byte('A'+i)) == 1)
+	}
+	vReach("end")
+}
+
+// H_C09_analysis_elements_conserve: the full analysis returns every fragment's text exactly once in its elements.
+//
+//symgo:harness prop=C09 kernel=K6-analysis-elements real=1 noreplay=1
+//symgo:redirect (*github.com/tsawler/tabula/layout.ColumnDetector).findVerticalGaps vHavocGaps
+//symgo:desc 1 quick / 1..2 thorough fragments with symbolic real X, Y, Width (Height 10) and distinct one-letter texts; findVerticalGaps havoc'd: each letter occurs exactly once in the concatenated Text of AnalysisResult.Elements and exactly once in AnalysisResult.GetText()
+func H_C09_analysis_elements_conserve() {
+	n := vAnyIntIn(1, 1+vTier())
+	frags := vFrags(n, false)
+	res := NewAnalyzer().Analyze(frags, 612, 792)
+	vAssert("result", res != nil)
+	all := ""
+	for _, e := range res.Elements {
+		all += e.Text + "\n"
+	}
+	whole := res.GetText()
+	for i := 0; i < n; i++ {
+		vAssert("each-text-once-in-elements", vCountByte(all, byte('A'+i)) == 1)
+		vAssert("each-text-once-in-analysis-text", vCountByte(whole, byte('A'+i)) == 1)
+	}
+	vReach("end")
+}
